@@ -4,6 +4,7 @@ import (
 	"bufio"
 	"bytes"
 	"context"
+	"encoding/base64"
 	"errors"
 	"fmt"
 	"io"
@@ -15,12 +16,15 @@ import (
 
 	"github.com/gobwas/ws"
 	"github.com/gobwas/ws/wsutil"
+	"google.golang.org/genproto/googleapis/api/annotations"
 	"google.golang.org/grpc"
 	"google.golang.org/grpc/codes"
 	"google.golang.org/grpc/metadata"
 	"google.golang.org/grpc/reflection"
 	rpb "google.golang.org/grpc/reflection/grpc_reflection_v1alpha"
 	"google.golang.org/grpc/status"
+	spb "google.golang.org/genproto/googleapis/rpc/status"
+	"google.golang.org/protobuf/types/known/wrapperspb"
 	"google.golang.org/protobuf/encoding/protojson"
 	"google.golang.org/protobuf/proto"
 	"google.golang.org/protobuf/reflect/protoreflect"
@@ -149,6 +153,8 @@ func c18Specs(svc string, withRules bool) []*MethodSpec {
 		specs[0].Rule = postRule("/c18/u", "*")
 		specs[1].Rule = getRule("/c18/g/{name}")
 		specs[2].Rule = postRule("/c18/ss", "*")
+		// a WebSocket binding WITHOUT a body: the request message comes from the URL alone
+		specs[2].Rule.AdditionalBindings = []*annotations.HttpRule{customRule("WEBSOCKET", "/c18/wss/{name}", "")}
 		specs[3].Rule = postRule("/c18/cs", "*")
 		specs[4].Rule = customRule("WEBSOCKET", "/c18/ws", "*")
 	}
@@ -276,7 +282,7 @@ func (e *c18Env) run(cs c18Case) (out c18Outcome, runErr string) {
 			o := fx.NewMsg("Reply")
 			var hmd, tmd metadata.MD
 			err := e.gcc.Invoke(ctx, full, msgs[0], o, grpc.Header(&hmd), grpc.Trailer(&tmd))
-			out.code, out.msg = status.Code(err).String(), status.Convert(err).Message()
+			out.code, out.msg = status.Code(err).String(), status.Convert(err).Message()+c18Details(err)
 			if err == nil {
 				out.replies = []string{replyText(o)}
 			}
@@ -326,7 +332,7 @@ func (e *c18Env) run(cs c18Case) (out c18Outcome, runErr string) {
 		if ferr == io.EOF {
 			ferr = nil
 		}
-		out.code, out.msg = status.Code(ferr).String(), status.Convert(ferr).Message()
+		out.code, out.msg = status.Code(ferr).String(), status.Convert(ferr).Message()+c18Details(ferr)
 		return
 	case "http":
 		var r = httptest.NewRequest("GET", "/c18/g/"+cs.mode, nil)
@@ -382,6 +388,8 @@ func (e *c18Env) run(cs c18Case) (out c18Outcome, runErr string) {
 		frames, flags, _ := parseFrames(rec.Body.Bytes())
 		out.code = rec.Header().Get("Grpc-Status")
 		out.msg = rec.Header().Get("Grpc-Message")
+		webDetails := rec.Header().Get("Grpc-Status-Details-Bin")
+		defer func() { out.msg += c18WebDetails(webDetails) }()
 		for i, f := range frames {
 			if flags[i]&0x80 != 0 {
 				for _, line := range strings.Split(string(f), "\r\n") {
@@ -391,6 +399,8 @@ func (e *c18Env) run(cs c18Case) (out c18Outcome, runErr string) {
 						out.code = strings.TrimSpace(v)
 					case "grpc-message":
 						out.msg = strings.TrimSpace(v)
+					case "grpc-status-details-bin":
+						webDetails = strings.TrimSpace(v)
 					}
 				}
 				continue
@@ -545,7 +555,13 @@ func runC18(c *Ctx) {
 		defer e.fx.Close()
 		envs[o] = e
 	}
-	replaced := status.Error(codes.AlreadyExists, "interceptor says no")
+	// exactly ONE detail: the most common shape of a rich error (and the boundary of any "> n" guard)
+	replacedSt, derr := status.New(codes.AlreadyExists, "interceptor says no").WithDetails(wrapperspb.String("c18-detail"))
+	if derr != nil {
+		c.SpecFail("fixture", "c18 details", derr.Error(), "a status with one detail", "C18/fixture", "fixture")
+		return
+	}
+	replaced := replacedSt.Err()
 	envs["icept-replace"].ri.Transform = func(resp interface{}, err error) (interface{}, error) { return nil, replaced }
 	envs["icept-replace"].ri.TransformErr = func(err error) error { return replaced }
 
@@ -679,6 +695,9 @@ func runC18(c *Ctx) {
 				if !strings.Contains(got.code+got.msg, "AlreadyExists") && !strings.Contains(got.code+" "+got.msg, "interceptor says no") && got.code != "6" && got.code != "409" {
 					c.SpecFail("outcome", cs.String()+" options=icept-replace", got.String(), "the interceptor's AlreadyExists error", "C18/"+cs.proto_+"/interceptor-result-ignored/"+cs.method, "the client did not get what the interceptor returned")
 				}
+				if (cs.proto_ == "grpc" || cs.proto_ == "web") && !strings.Contains(got.msg, " details=1") {
+					c.SpecFail("outcome", cs.String()+" options=icept-replace", got.String(), "the interceptor's status with its one detail (details=1)", "C18/"+cs.proto_+"/interceptor-status-details-lost/"+cs.method, "the client got the interceptor's code and message but not the detail the status carries")
+				}
 			}
 		}
 	}
@@ -811,6 +830,48 @@ func c18Edges(c *Ctx, e *c18Env) {
 			if why := c18Grammar(evs, endErrs, "/"+fxPkg+".Svc/G", false, false, 1, 1, false); why != "" {
 				c.SpecFail("stats", name, strings.Join(evs, " "), "tag in-header begin, one in-payload, one out-payload, end", "C18/edge/"+c18Key(why), why)
 			}
+		}
+	}
+	// a WebSocket binding without a body: the one message the handler receives is built from the URL —
+	// it is a received message like any other (one in-payload), followed by the replies
+	for _, n := range []int{0, 2} {
+		name := fmt.Sprintf("websocket: binding without a body, %d replies", n)
+		e.st.Reset()
+		url := "ws" + strings.TrimPrefix(fx.HTTPServer().URL, "http") + fmt.Sprintf("/c18/wss/ok?i32=%d", n)
+		ctx, cancel := context.WithTimeout(context.Background(), 5*time.Second)
+		conn, br, _, err := ws.Dial(ctx, url)
+		cancel()
+		if err != nil {
+			c.SpecFail("stats", name, err.Error(), "a WebSocket connection", "C18/edge/ws-bodyless-dial", "the body-less WebSocket binding cannot be reached")
+			continue
+		}
+		conn.SetDeadline(time.Now().Add(3 * time.Second))
+		var rd io.Reader = conn
+		if br != nil { // frames that arrived right behind the handshake
+			rd = br
+		}
+		got := 0
+		for {
+			hdr, err := ws.ReadHeader(rd)
+			if err != nil {
+				break
+			}
+			payload := make([]byte, hdr.Length)
+			io.ReadFull(rd, payload) //nolint
+			if hdr.OpCode == ws.OpClose {
+				break
+			}
+			got++
+		}
+		conn.Close()
+		time.Sleep(20 * time.Millisecond)
+		evs, endErrs := e.st.Snapshot()
+		c.Eval("edge", name, true)
+		c.Class("edge")
+		if got != n {
+			c.SpecFail("stats", name, fmt.Sprintf("%d replies", got), fmt.Sprintf("%d replies", n), "C18/edge/ws-bodyless-replies", "the body-less WebSocket binding does not deliver the handler's replies")
+		} else if why := c18Grammar(evs, endErrs, "/"+fxPkg+".Svc/SS", false, true, 1, n, false); why != "" {
+			c.SpecFail("stats", name, strings.Join(evs, " "), fmt.Sprintf("tag in-header begin, one in-payload, %d out-payload, end", n), "C18/edge/ws-bodyless/"+c18Key(why), why)
 		}
 	}
 	// a reply refused by the send limit is not a sent message: no out-payload event for it
@@ -959,4 +1020,27 @@ func c18Grammar(evs []string, endErr []error, full string, cstream, sstream bool
 		}
 	}
 	return ""
+}
+
+// c18Details: how many details the status a gRPC client received carries (part of "what the client gets").
+func c18Details(err error) string {
+	if n := len(status.Convert(err).Details()); n > 0 {
+		return fmt.Sprintf(" details=%d", n)
+	}
+	return ""
+}
+
+func c18WebDetails(b64 string) string {
+	if b64 == "" {
+		return ""
+	}
+	raw, err := base64.RawStdEncoding.DecodeString(strings.TrimRight(b64, "="))
+	if err != nil {
+		return " details=undecodable"
+	}
+	st := &spb.Status{}
+	if err := proto.Unmarshal(raw, st); err != nil {
+		return " details=undecodable"
+	}
+	return fmt.Sprintf(" details=%d", len(st.Details))
 }
